@@ -61,6 +61,47 @@ func seedShuffles(seed int64) {
 	symboltable.VerifSetShuffleSeed(seed)
 }
 
+// ---------------------------------------------------------------- names
+//
+// The grammar protocol decides "non-terminal iff listed in nonterms" by name, so a terminal that has the same name as
+// a non-terminal (legal for the library: Terminal("S") and NonTerminal("S") are different symbols) is spelled 'S
+// in case files; the quote is stripped when the library symbol is made, on both sides (Go here, Lean in the driver).
+
+func stripQ(s string) string { return strings.TrimPrefix(s, "'") }
+
+// gxName is the case-file spelling of a library symbol.
+func gxName(g gx.G, s grammar.Symbol) string {
+	if s.IsTerminal() && g.IsNonTerm(s.Name()) {
+		return "'" + s.Name()
+	}
+	return s.Name()
+}
+
+// toCFG builds the library grammar (gx.G.ToCFG with the quote convention).
+func toCFG(g gx.G) *grammar.CFG {
+	ts := make([]grammar.Terminal, len(g.Terms))
+	for i, t := range g.Terms {
+		ts[i] = grammar.Terminal(stripQ(t))
+	}
+	ns := make([]grammar.NonTerminal, len(g.NonTerms))
+	for i, n := range g.NonTerms {
+		ns[i] = grammar.NonTerminal(n)
+	}
+	ps := make([]*grammar.Production, len(g.Prods))
+	for i, p := range g.Prods {
+		body := grammar.String[grammar.Symbol]{}
+		for _, x := range p.Body {
+			if g.IsNonTerm(x) {
+				body = append(body, grammar.NonTerminal(x))
+			} else {
+				body = append(body, grammar.Terminal(stripQ(x)))
+			}
+		}
+		ps[i] = &grammar.Production{Head: grammar.NonTerminal(p.Head), Body: body}
+	}
+	return grammar.NewCFG(ts, ns, ps, grammar.NonTerminal(g.Start))
+}
+
 // ---------------------------------------------------------------- lexer
 
 type sliceLexer struct {
@@ -75,7 +116,7 @@ func (l *sliceLexer) NextToken() (lexer.Token, error) {
 	}
 	t := l.toks[l.i]
 	l.i++
-	return lexer.Token{Terminal: grammar.Terminal(t), Lexeme: t, Pos: lexer.Position{Offset: l.i}}, nil
+	return lexer.Token{Terminal: grammar.Terminal(stripQ(t)), Lexeme: t, Pos: lexer.Position{Offset: l.i}}, nil
 }
 
 // ---------------------------------------------------------------- rendering (byte-identical to the Lean driver)
@@ -241,7 +282,7 @@ func mkProd(g gx.G, w string) (*grammar.Production, bool) {
 	if !strings.HasPrefix(w, "[") || !strings.HasSuffix(w, "]") {
 		return nil, false
 	}
-	hb := strings.Split(w[1:len(w)-1], ":")
+	hb := strings.SplitN(w[1:len(w)-1], ":", 2) // the head has no colon; the body may contain the terminal ":"
 	if len(hb) != 2 {
 		return nil, false
 	}
@@ -253,7 +294,7 @@ func mkProd(g gx.G, w string) (*grammar.Production, bool) {
 		if g.IsNonTerm(s) {
 			body = append(body, grammar.NonTerminal(s))
 		} else {
-			body = append(body, grammar.Terminal(s))
+			body = append(body, grammar.Terminal(stripQ(s)))
 		}
 	}
 	return &grammar.Production{Head: grammar.NonTerminal(hb[0]), Body: body}, true
@@ -434,7 +475,7 @@ func climb(ls []refLevel, toks []string) *expr {
 		lhs := &expr{}
 		for pos < len(toks) && !bad {
 			op := toks[pos]
-			lv := refLevelOf(ls, "t:"+op)
+			lv := refLevelOf(ls, "t:"+stripQ(op))
 			if lv < 0 || ls[lv].assoc == "none" {
 				bad = true
 				return nil
@@ -489,7 +530,7 @@ func replay(g gx.G, prods []*grammar.Production, w []string) string {
 			if q.Head == string(p.Head) && len(q.Body) == len(p.Body) {
 				eq := true
 				for x := range q.Body {
-					if q.Body[x] != p.Body[x].Name() || g.IsNonTerm(q.Body[x]) == p.Body[x].IsTerminal() {
+					if q.Body[x] != gxName(g, p.Body[x]) {
 						eq = false
 					}
 				}
@@ -503,7 +544,7 @@ func replay(g gx.G, prods []*grammar.Production, w []string) string {
 		}
 		nf := append([]string{}, form[:k]...)
 		for _, s := range p.Body {
-			nf = append(nf, s.Name())
+			nf = append(nf, gxName(g, s))
 		}
 		form = append(nf, form[k+1:]...)
 	}
@@ -664,8 +705,8 @@ func Exec(c hx.Case) hx.Result {
 							hs.Add(&lr.PrecedenceHandle{Production: p})
 							rl.handles["p:"+showProd(p)] = true
 						} else {
-							hs.Add(lr.PrecedenceHandleForTerminal(grammar.Terminal(w)))
-							rl.handles["t:"+w] = true
+							hs.Add(lr.PrecedenceHandleForTerminal(grammar.Terminal(stripQ(w))))
+							rl.handles["t:"+stripQ(w)] = true
 						}
 					}
 					st.levels = append(st.levels, &lr.PrecedenceLevel{Associativity: as, Handles: hs})
@@ -687,7 +728,7 @@ func Exec(c hx.Case) hx.Result {
 					out = "ok no-table"
 				} else {
 					var s string
-					kind := hx.Try(func() { s = showStates(stateItems(f[1], st.g.ToCFG())) })
+					kind := hx.Try(func() { s = showStates(stateItems(f[1], toCFG(st.g))) })
 					if kind != "" {
 						out, stop = "panic", true
 						bad(i, "", "dump %s panicked (%s)", f[1], kind)
@@ -785,7 +826,11 @@ func Exec(c hx.Case) hx.Result {
 					} else if accepted {
 						var y []string
 						yieldOf(root, &y)
-						if strings.Join(y, " ") != strings.Join(w, " ") {
+						ws := make([]string, len(w))
+						for j, t := range w {
+							ws[j] = stripQ(t)
+						}
+						if strings.Join(y, " ") != strings.Join(ws, " ") {
 							bad(i, "", "%s: AST yield [%s] differs from the input [%s]", k, strings.Join(y, " "), strings.Join(w, " "))
 						}
 					}
@@ -803,7 +848,7 @@ func Exec(c hx.Case) hx.Result {
 					ref := climb(st.ref, w)
 					listed := true
 					for _, t := range w {
-						if t != "id" && refLevelOf(st.ref, "t:"+t) < 0 {
+						if t != "id" && refLevelOf(st.ref, "t:"+stripQ(t)) < 0 {
 							listed = false
 						}
 					}
@@ -830,7 +875,7 @@ func Exec(c hx.Case) hx.Result {
 			if bar != 2 {
 				break
 			}
-			a := f[1]
+			a := stripQ(f[1])
 			var acts []*lr.Action
 			okA := true
 			for _, w := range f[bar+1:] {
@@ -929,6 +974,15 @@ func Exec(c hx.Case) hx.Result {
 					bad(i, "", "resolveConflict(%s) = %s, the declared levels give %s", op, got, want)
 				}
 			}
+		case "chain":
+			// the Model evaluates the simulation certificate (per-core lookahead inclusion) between the three tables;
+			// it is expected to hold for every reduced grammar; the verdict chain itself is checked at the end of the case
+			out = "ok chain"
+			for _, k := range kinds {
+				if b := st.tabs[k]; b == nil || !b.plain {
+					out = "ok no-table"
+				}
+			}
 		case "climb":
 			if e := climb(st.ref, f[1:]); e != nil {
 				out = "ok " + e.String()
@@ -1003,7 +1057,7 @@ func Exec(c hx.Case) hx.Result {
 func (st *state) build(i int, k string, bad func(int, string, string, ...any), tags map[string]bool) (string, bool) {
 	delete(st.tabs, k)
 	delete(st.accepted, k)
-	G := st.g.ToCFG()
+	G := toCFG(st.g)
 	run := func(levels lr.PrecedenceLevels) (T *lr.ParsingTable, err error, fail string) {
 		var pk string
 		done := hx.WithTimeout(opTimeout, func() {
